@@ -316,7 +316,7 @@ func badTexts(t *rapid.T, set *ymodel.Set) []ymodel.Source {
 func gen(t *rapid.T) Case {
 	o := ymodel.DefaultOpts()
 	o.Budget = 14
-	o.Posix = true // posix-pattern statements of openconfig-extensions in string types
+	o.Posix = true  // posix-pattern statements of openconfig-extensions in string types
 	o.Extras = true // must, when, status, reference, presence and extension statements on nodes, uses and augments
 	schema.AugmentExtras = true
 	set, _ := schema.Generate(t, o)
@@ -379,11 +379,11 @@ func gen(t *rapid.T) Case {
 				c.Good = append(c.Good, ymodel.Source{Name: name, Text: fmt.Sprintf("module fam {\n namespace \"urn:fam\";\n prefix f;\n import fambase { prefix fb; }\n%s grouping g { leaf from-r%d { type %s; } }\n identity id;\n identity sub%d { base id; }\n leaf ll { type identityref { base id; } }\n container c%d { leaf own { type %s; } }\n container c { }\n}\n", rev, i, kinds[i], i, i, kinds[i])})
 				continue
 			}
-			c.Good = append(c.Good, ymodel.Source{Name: name, Text: fmt.Sprintf("module fam {\n namespace \"urn:fam\";\n prefix f;\n import fambase { prefix fb; }\n%s%s typedef t { type %s; units \"r%d\"; }\n grouping g { leaf from-r%d { type t; } }\n identity id;\n identity sub%d { base id; }\n typedef lt { type identityref { base id; } }\n leaf ll { type lt; }\n%s container c%d { leaf own { type t; } }\n container c { }\n}\n", inc, rev, kinds[i], i, i, i, viaSub, i)})
+			c.Good = append(c.Good, ymodel.Source{Name: name, Text: fmt.Sprintf("module fam {\n namespace \"urn:fam\";\n prefix f;\n import fambase { prefix fb; }\n%s%s typedef t { type %s; units \"r%d\"; }\n typedef n { type int32 { range \"%d..%d\"; } }\n typedef s { type string { length \"%d..%d\"; } }\n grouping g { leaf from-r%d { type t; } }\n identity id;\n identity sub%d { base id; }\n typedef lt { type identityref { base id; } }\n leaf ll { type lt; }\n%s container c%d { leaf own { type t; } }\n container c { }\n}\n", inc, rev, kinds[i], i, 10*i, 100-10*i, i, 20-i, i, i, viaSub, i)})
 		}
 		c.Good = append(c.Good, ymodel.Source{Name: "fambase.yang", Text: "module fambase {\n namespace \"urn:fambase\";\n prefix fb;\n identity root;\n leaf rr { type identityref { base root; } }\n}\n"})
 		if withSub {
-			c.Good = append(c.Good, ymodel.Source{Name: "famsub@2019-05-05.yang", Text: "submodule famsub {\n belongs-to fam { prefix f; }\n import fambase { prefix fb; }\n revision 2019-05-05;\n identity subsame { base fb:root; }\n identity subother { base fb:root; }\n identity sid;\n identity sd19 { base sid; }\n typedef st { type identityref { base sid; } }\n leaf insub { type st; }\n}\n"})
+			c.Good = append(c.Good, ymodel.Source{Name: "famsub@2019-05-05.yang", Text: "submodule famsub {\n belongs-to fam { prefix f; }\n import fambase { prefix fb; }\n revision 2019-05-05;\n identity subsame { base fb:root; }\n identity subother { base fb:root; }\n identity sid;\n identity sd19 { base sid; }\n typedef st { type identityref { base sid; } }\n typedef sonly19 { type string; units \"only-2019\"; }\n leaf insub { type st; }\n}\n"})
 			if rapid.Bool().Draw(t, "later-submodule-revision") {
 				// a later revision of the submodule may arrive after a processing run and supersede the first
 				c.Good = append(c.Good, ymodel.Source{Name: "famsub@2021-12-31.yang", Text: "submodule famsub {\n belongs-to fam { prefix f; }\n import fambase { prefix fb; }\n revision 2021-12-31;\n identity subsame { base fb:root; }\n identity subother { base fb:root; }\n identity sid;\n identity sd21 { base sid; }\n typedef st { type identityref { base sid; } units \"later\"; }\n leaf insub { type st; }\n leaf insub21 { type st; }\n}\n"})
@@ -394,6 +394,13 @@ func gen(t *rapid.T) Case {
 		} else {
 			// the importer reaches the family's definitions through a varying selection of shapes
 			user := "module famuser {\n namespace \"urn:famuser\";\n prefix u;\n import fam { prefix f; }\n leaf l { type f:t; }\n container k { uses f:g; }\n"
+			// the typedefs of the family's submodule, reached through the prefix of the module: one that every
+			// revision of the submodule has, one that only the first revision has
+			subShape, subOnly := "", ""
+			if withSub {
+				subShape = " leaf viast { type f:st; }\n typedef tst { type f:st; }\n leaf viatst { type tst; }\n"
+				subOnly = " leaf viasonly { type f:sonly19; }\n"
+			}
 			for _, sn := range []string{
 				" grouping lg { uses f:g; leaf viat { type f:t; } }\n container k2 { uses lg; }\n",
 				" leaf r { type identityref { base f:id; } }\n",
@@ -409,6 +416,15 @@ func gen(t *rapid.T) Case {
 				" choice ch { case ca { uses f:g; } leaf cb { type f:lt; } }\n",
 				" notification ev { leaf-list n { type f:t; } }\n",
 				" augment \"/f:c\" { container viaaug { uses f:g; leaf at { type f:t; } } }\n",
+				// restrictions whose meaning depends on the revision's own range and length (min and max are the
+				// parent's bounds; 40..60 and 5..9 lie within every revision's set, 5..95 and 1..19 only within the
+				// oldest one's)
+				" typedef nn { type f:n { range \"min..max\"; } }\n leaf viann { type nn; }\n leaf vn { type f:n { range \"40..60\"; } }\n",
+				" leaf vnmin { type f:n { range \"min..50 | 55..max\"; } }\n leaf vsl { type f:s { length \"min..max\"; } }\n typedef ss { type f:s { length \"5..9\"; } }\n leaf viass { type ss; }\n",
+				" leaf vnwide { type f:n { range \"5..95\"; } }\n",
+				" leaf vswide { type f:s { length \"1..19\"; } }\n",
+				subShape,
+				subOnly,
 			} {
 				if rapid.IntRange(0, 3).Draw(t, "user-shape") != 0 {
 					user += sn
